@@ -43,6 +43,16 @@ def run_case(draw, samplers=SAMPLERS):
     return case
 
 
+# Argument objects a user script defines once and passes to every call (first run, resumed run, repeated run): when switched on
+# by a check, Problem.sample_kwargs hands out the SAME dict objects for these options instead of fresh ones.
+SHARED = {}
+SHARED_ON = [False]
+
+
+def _shared(name, value):
+    return SHARED.setdefault(name, value) if SHARED_ON[0] else value
+
+
 class Problem:
     """Aspire instance + recorders for one case."""
 
@@ -148,7 +158,7 @@ class Problem:
                 pk = {"affine_transform": "affine" in pre, "bounded_to_unbounded": ("logit" in pre or "probit" in pre)}
                 if "probit" in pre:
                     pk["bounded_transform"] = "probit"
-                kw["preconditioning_kwargs"] = pk
+                kw["preconditioning_kwargs"] = _shared("preconditioning_kwargs", pk)
         elif pre == "default":
             kw["preconditioning"] = "default"
         if s in ("smc", "emcee_smc"):
@@ -169,6 +179,7 @@ class Problem:
                     kw["sampler_kwargs"]["n_final_steps"] = case["kernel_steps"] + 2
             else:
                 kw["sampler_kwargs"] = {"nsteps": case["kernel_steps"], "progress": False}
+            kw["sampler_kwargs"] = _shared("sampler_kwargs", kw["sampler_kwargs"])
             if checkpoint_cb is not None:
                 kw["checkpoint_callback"] = checkpoint_cb
                 kw["checkpoint_every"] = case.get("ckpt_every") or 1
